@@ -75,6 +75,54 @@ def _apply(conds, p):
     return p
 
 
+def solve_var(e):
+    """e = k*v + r with v a plain variable and r a number: returns (('v', name), -r/k), else None"""
+    e = e.clean()
+    lin = None
+    r = 0
+    for m, c in e.t.items():
+        if m == ():
+            r = c
+        elif len(m) == 1 and m[0][1] == 1 and atom_of(m[0][0])[0] == 'v' and lin is None:
+            lin = (atom_of(m[0][0]), c)
+        else:
+            return None
+    if lin is None or lin[1] == 0:
+        return None
+    return lin[0], -r / lin[1]
+
+
+def subst_value(v, m):
+    if isinstance(v, ITE):
+        return ITE(subst_cond(v.cond, m), subst_value(v.a, m), subst_value(v.b, m))
+    if isinstance(v, Poly):
+        return v.subst(m)
+    return v
+
+
+def subst_cond(c, m):
+    if not isinstance(c, Cond):
+        return c
+    if c.kind == 'cmp':
+        return Cond('cmp', c.a.subst(m) if isinstance(c.a, Poly) else c.a, c.b.subst(m) if isinstance(c.b, Poly) else c.b, c.op)
+    if c.kind == 'not':
+        return Cond('not', subst_cond(c.a, m))
+    return Cond(c.kind, subst_cond(c.a, m), subst_cond(c.b, m))
+
+
+def generic_leaf(v):
+    """the value on the open part of the input space: equality conditions are measure-zero and skipped"""
+    while isinstance(v, ITE):
+        c = v.cond
+        if isinstance(c, Cond) and c.kind == 'cmp' and c.op == '==':
+            v = v.b
+        elif isinstance(c, Cond) and c.kind == 'cmp' and c.op == '!=':
+            v = v.a
+        else:
+            return None
+    return v
+
+
 def _as_poly(v):
     if isinstance(v, Poly):
         return v
@@ -88,11 +136,24 @@ def _as_poly(v):
 def equal_under(got, want, eqs=(), path=()):
     if isinstance(got, ITE):
         c = got.cond
+        if isinstance(c, Cond) and c.kind == 'cmp' and isinstance(c.a, Poly) and isinstance(c.b, Poly) and c.a.is_const() and c.b.is_const():
+            x, y = c.a.const_value(), c.b.const_value()
+            t = {'<': x < y, '>': x > y, '<=': x <= y, '>=': x >= y, '==': x == y, '!=': x != y}[c.op]
+            return equal_under(got.a if t else got.b, want, eqs, path)
         if isinstance(c, Cond) and c.kind == 'cmp' and c.op in ('==', '!='):
             a, b = (got.a, got.b) if c.op == '==' else (got.b, got.a)
             e = (c.a - c.b) if isinstance(c.a, Poly) and isinstance(c.b, Poly) else None
             if e is not None:
                 e = _apply(eqs, e)
+                sol = solve_var(e)
+                if sol is not None:
+                    # the condition fixes one variable: substitute it everywhere (function arguments included)
+                    m = {sol[0]: Poly.const(sol[1])}
+                    r = equal_under(subst_value(a, m), want.subst(m) if isinstance(want, Poly) else want, eqs,
+                                    path + ('%s == %s' % (c.a, c.b),))
+                    if not r[0]:
+                        return r
+                    return equal_under(b, want, eqs, path + ('%s != %s' % (c.a, c.b),))
                 if not e.clean().t:
                     # the condition is already implied by the active equalities: only the == arm is reachable
                     return equal_under(a, want, eqs, path)
@@ -188,3 +249,14 @@ def cond_at(c, mapping):
             return None
         return (x and y) if c.kind == 'and' else (x or y)
     return None
+
+
+def leaf_at(v, mapping):
+    """the leaf of a guarded value selected at a concrete point (the value in a neighbourhood of that point when the
+    point is generic); None when a condition does not become decidable there"""
+    while isinstance(v, ITE):
+        c = cond_at(v.cond, mapping)
+        if c is None:
+            return None
+        v = v.a if c else v.b
+    return v
